@@ -229,7 +229,7 @@ class FindBinCompletions(Helper):
     timeout_ms = 60000
 
     def shapes(self, level):
-        return [1, 2, 3] if level == "quick" else [1, 2, 3, 4]
+        return [1, 2, 3, 4]
 
     def shape_text(self, n):
         return f"{n} remaining items sorted descending, positive integers <= binsize; x and binsize symbolic"
